@@ -77,7 +77,8 @@ def stepC06 (f : List String) : String :=
     let env := envOf ver role
     let frame : Option J := if toks == ["X"] then none else (J.read toks).map decodeJ
     if toks != ["X"] && frame.isNone then "bad-op" else
-    let pend := pend == "1"
+    -- "0h" / "1h": an invalid-message hook that returns a fresh error with the same code (no effect on what is written)
+    let pend := pend == "1" || pend == "1h"
     if role == "cp" then
       let s0 := runC (CD.init 0) ([.start] ++ (if pend then [.send "pid", .send "qid"] else []))
       let (s1, outs) := recvC env s0 frame
